@@ -160,7 +160,13 @@ func zipPathMain(args []string) {
 			rep.Hist("sanitise:malicious")
 		} else {
 			rep.Hist("sanitise:accepted")
-			if !underDest(cdest, p) || strings.Contains(p[len(cdest):], "..") {
+			hasParentRef := false
+			for _, comp := range strings.Split(p, "/") {
+				if comp == ".." {
+					hasParentRef = true
+				}
+			}
+			if !underDest(cdest, p) || hasParentRef {
 				rep.Fail(hx.Failure{Kind: "impl-violates-property", Key: "sanitiser-accepts-escaping-path", Case: fmt.Sprintf("dest=%q name=%q", dest, name), Observed: p})
 			}
 		}
@@ -174,10 +180,16 @@ func zipPathMain(args []string) {
 	}
 	tmpRoot, _ := os.MkdirTemp("", "verif-zip")
 	defer os.RemoveAll(tmpRoot)
-	for i := 0; i < nz; i++ {
+	nestedNames := []string{"n.zip", "d/n.zip", ".zip", "a..b.zip", "d/..zip", "...zip", "d/...jar", "d/e/...zip", "....zip", "../n.zip", "d/../../n.zip", "..", "d/.."}
+	for i := 0; i < nz+len(nestedNames)*2; i++ {
 		dest := hx.Pick(rnd, dests)
 		var entries []zEntry
 		ne := rnd.Range(1, 5)
+		corpus := i >= nz // targeted: one nested archive with a hostile name and a benign content, nothing else
+		if corpus {
+			ne = 0
+			dest = []string{"/dest/sub", "rel/dest/sub"}[(i-nz)%2]
+		}
 		for j := 0; j < ne; j++ {
 			name := genHostileName(rnd)
 			if rnd.Chance(60) { // mostly benign entries so that extraction proceeds
@@ -185,10 +197,15 @@ func zipPathMain(args []string) {
 			}
 			entries = append(entries, zEntry{name: name, isDir: rnd.Chance(20), content: []byte("data" + strconv.Itoa(j)), declared: -1})
 		}
-		recursive := rnd.Chance(30)
+		recursive := rnd.Chance(30) || corpus
 		if recursive {
-			inner := buildZip([]zEntry{{name: genHostileName(rnd), content: []byte("in"), declared: -1}, {name: "ok.txt", content: []byte("ok"), declared: -1}})
-			entries = append(entries, zEntry{name: hx.Pick(rnd, []string{"n.zip", "d/n.zip", ".zip", "a..b.zip", "d/..zip"}), content: inner, declared: -1})
+			innerEntries := []zEntry{{name: genHostileName(rnd), content: []byte("in"), declared: -1}, {name: "ok.txt", content: []byte("ok"), declared: -1}}
+			nm := hx.Pick(rnd, nestedNames)
+			if corpus {
+				innerEntries = innerEntries[1:]
+				nm = nestedNames[(i-nz)/2]
+			}
+			entries = append(entries, zEntry{name: nm, content: buildZip(innerEntries), declared: -1})
 		}
 		data := buildZip(entries)
 		for _, backend := range []string{"mem", "os"} {
